@@ -91,6 +91,16 @@ def cipher_self(**kw):
 def run(check, ctx):
     repo = ctx.repo
     mod = repo.module(HP)
+    # an invalid encapsulated key is refused at set-up: lengths / types of the public-key decoders and the range and
+    # curve checks of the point constructor (rows shared with C05 / C06)
+    from ..rules_g import run_row as _run_row
+    from .c05_extra import ecc_rows, curve_ids
+    for r in ecc_rows(repo, curve_ids(repo)):
+        if r.rid.startswith(("pk.len", "sec1.")):
+            r.prop = "C15"
+            _run_row(check, repo, r)
+    from . import point_compose
+    point_compose.point_rows(check, ctx, rule="G", programs=("observe", "x.observe"), refused_too=True)
     # ---- key schedule terms for every suite and mode -----------------------------
     n = 0
     for curve, (kem, kdf, nh) in sorted(KEMS.items()):
